@@ -1,4 +1,4 @@
-PROPS = ["CTV.Props.C02"]
+PROPS = ["CTV.Props.C02", "CTV.Props.C02Tie"]
 HARNESS = [dict(pkg="./trillian/ctfe/", test="TestVerifC02", timeout=900)]
 RULE = ("chains from generated hierarchies (1-3 roots, cross-signs, pre-issuers, same-name twins, RSA/ECDSA mixes, made with crypto/x509.CreateCertificate) "
         "with perturbations (plain / root included / dropped / swapped / duplicated / unrelated / forged signature / cross-signed route / unparsable / "
